@@ -300,7 +300,14 @@ func TestC12Lru(t *testing.T) {
 				Ev.Probe("cache_reset_onto_another_file")
 			}
 			data = Bytes(rapid.Uint64().Draw(rt, "seed"), size)
-			if err := lf.Reset(bytes.NewReader(data)); err != nil {
+			// the old file is read through a pool reader: it may return fewer bytes than asked for at
+			// any time, and may deliver EOF together with the last bytes
+			var rs io.ReadSeeker = bytes.NewReader(data)
+			if sm := rapid.IntRange(0, 4).Draw(rt, "oldslicing"); sm > 0 {
+				rs = NewSliceReader(data, sm, rapid.Uint64().Draw(rt, "oldsliceseed"), false, rapid.Bool().Draw(rt, "oldeofwith"))
+				Ev.Probe("old_file_reader_returns_short_reads")
+			}
+			if err := lf.Reset(rs); err != nil {
 				Violation(rt, "C12/lru-reset", "Reset: %v", err)
 				return
 			}
